@@ -70,11 +70,7 @@ unsafe fn new_boxed_name_model(wire_len: usize, label_offsets: &[u8], slices: &[
     let layout = std::alloc::Layout::from_size_align_unchecked(size, 1);
     let allocation = std::alloc::alloc(layout);
     *allocation = n_labels as u8;
-    let mut i = 0;
-    while i < n_labels {
-        *allocation.add(1 + i) = label_offsets[i];
-        i += 1;
-    }
+    // wire form, octet by octet
     let mut index = 1 + n_labels;
     let mut s = 0;
     while s < slices.len() {
@@ -86,6 +82,17 @@ unsafe fn new_boxed_name_model(wire_len: usize, label_offsets: &[u8], slices: &[
             j += 1;
         }
         s += 1;
+    }
+    // label offsets: recomputed from the wire form just written (callers
+    // carry them through an ArrayVec<u8, 128>, where CBMC loses constants)
+    // and required to equal the ones passed in
+    let mut off = 0usize;
+    let mut i = 0;
+    while i < n_labels {
+        assert!(label_offsets[i] as usize == off, "new_boxed_name: label offsets describe the wire form");
+        *allocation.add(1 + i) = off as u8;
+        off += 1 + *allocation.add(1 + n_labels + off) as usize;
+        i += 1;
     }
     Box::from_raw(core::ptr::slice_from_raw_parts_mut(allocation, n_labels + wire_len) as *mut Name)
 }
